@@ -751,6 +751,29 @@ def fterm(x):
     raise TypeError(type(x))
 
 
+def fnarrow(x):
+    """the narrower FP term t if x is (to_fp RNE t) widening t exactly, else None.  Comparisons, classification, negation and
+    absolute value commute with the widening (lemmas discharged on every run by the harness that uses float shadows), so they are
+    expressed on t: the queries stay in the narrow sort."""
+    if z3.is_app(x) and x.decl().kind() == z3.Z3_OP_FPA_TO_FP and x.num_args() == 2 and z3.is_fp(x.arg(1)):
+        t = x.arg(1)
+        if t.sort().ebits() <= x.sort().ebits() and t.sort().sbits() <= x.sort().sbits():
+            return t
+    return None
+
+
+def _fpair(s, o):
+    a, b = fterm(s), fterm(o)
+    na, nb = fnarrow(a), fnarrow(b)
+    if na is not None and nb is not None and na.sort() == nb.sort():
+        return na, nb
+    return a, b
+
+
+def _fwide(t, like):
+    return z3.fpFPToFP(_RNE, t, like.sort())
+
+
 class SFloat(float):
     def __new__(cls, t):
         o = float.__new__(cls, 0.0)
@@ -786,31 +809,33 @@ class SFloat(float):
         return SFloat(z3.fpDiv(_RNE, fterm(o), fterm(s)))
 
     def __neg__(s):
-        return SFloat(z3.fpNeg(fterm(s)))
+        n = fnarrow(fterm(s))
+        return SFloat(_fwide(z3.fpNeg(n), fterm(s)) if n is not None else z3.fpNeg(fterm(s)))
 
     def __pos__(s):
         return s
 
     def __abs__(s):
-        return SFloat(z3.fpAbs(fterm(s)))
+        n = fnarrow(fterm(s))
+        return SFloat(_fwide(z3.fpAbs(n), fterm(s)) if n is not None else z3.fpAbs(fterm(s)))
 
     def __eq__(s, o):
-        return ENG.branch(z3.fpEQ(fterm(s), fterm(o)))
+        return ENG.branch(z3.fpEQ(*_fpair(s, o)))
 
     def __ne__(s, o):
-        return ENG.branch(z3.Not(z3.fpEQ(fterm(s), fterm(o))))
+        return ENG.branch(z3.Not(z3.fpEQ(*_fpair(s, o))))
 
     def __lt__(s, o):
-        return ENG.branch(z3.fpLT(fterm(s), fterm(o)))
+        return ENG.branch(z3.fpLT(*_fpair(s, o)))
 
     def __le__(s, o):
-        return ENG.branch(z3.fpLEQ(fterm(s), fterm(o)))
+        return ENG.branch(z3.fpLEQ(*_fpair(s, o)))
 
     def __gt__(s, o):
-        return ENG.branch(z3.fpGT(fterm(s), fterm(o)))
+        return ENG.branch(z3.fpGT(*_fpair(s, o)))
 
     def __ge__(s, o):
-        return ENG.branch(z3.fpGEQ(fterm(s), fterm(o)))
+        return ENG.branch(z3.fpGEQ(*_fpair(s, o)))
 
     def __bool__(s):
         return ENG.branch(z3.Not(z3.fpIsZero(fterm(s))))
@@ -917,7 +942,9 @@ class Exploration:
             try:
                 res = ("ok", self.fn())
             except PathAbort:
+                # the siblings of the decisions this path made before it was abandoned are still to be explored
                 self.aborted += 1
+                self._push_siblings(stack, prefix, eng)
                 continue
             except Deadline:
                 self.inconclusive.append(f"wall budget exhausted after {self.paths} paths")
@@ -936,13 +963,17 @@ class Exploration:
             except Exception as e:  # noqa: BLE001
                 res = ("exc", e)
             self.paths += 1
-            for i in range(len(prefix), len(eng.decisions)):
-                k, v, d, dg, rt = eng.decisions[i]
-                if k in ("bf", "cf"):
-                    continue
-                stack.append(eng.decisions[:i] + [(k, v, False, dg, rt)])
+            self._push_siblings(stack, prefix, eng)
             yield Path(list(eng.pc), list(eng.obligations), res[0], res[1], list(eng.decisions), eng.resources)
         self.complete = True
+
+    @staticmethod
+    def _push_siblings(stack, prefix, eng):
+        for i in range(len(prefix), len(eng.decisions)):
+            k, v, d, dg, rt = eng.decisions[i]
+            if k in ("bf", "cf"):
+                continue
+            stack.append(eng.decisions[:i] + [(k, v, False, dg, rt)])
 
 
 def explore(fn, max_paths=2000, max_seconds=None):
